@@ -249,23 +249,43 @@ Definition cmp_derived (fused : bool) (ms is_ : val) (mh ih : list val) (mx ip :
            ++ (if fused then cmp_field F_BODY_AFTER (of_list VN (map after_kind (firstn (length ia) ma))) (of_list VN (map after_kind ia))
                else [])).
 
-Definition cmp_obs (fused : bool) (model impl : val) (mx : list val) : list val :=
+(* The entity reads. Once the body has reached its terminal event they are compared exactly. While it has
+   not (the harness stopped polling), a body may have opened the next part's stream a poll earlier or
+   later than the model: then one list must be a prefix of the other (the order of the reads is what
+   the properties fix, not the poll at which a stream is opened). *)
+Fixpoint val_prefix (a b : list val) : bool :=
+  match a, b with
+  | [], _ => true
+  | x :: a', y :: b' => val_eqb x y && val_prefix a' b'
+  | _ :: _, [] => false
+  end.
+Definition cmp_calls (impl_term : N) (mc mcx ic : val) : list val :=
+  if impl_term =? 0 then
+    match mc, ic with
+    | VL m, VL i => if val_prefix m i || val_prefix i m then [] else cmp_field F_CALLS mc ic
+    | _, _ => cmp_field F_CALLS mc ic
+    end
+  else cmp_field F_CALLS mcx ic.      (* mcx: the reads of the model polled to ITS terminal event *)
+
+Definition cmp_obs (fused : bool) (model impl : val) (mx : list val) (mcx : val) : list val :=
   match model, impl with
   | VL [ms; VL mh; mh0; me0; VL mp; mc], VL [is_; VL ih; ih0; ie0; VL ip; ic] =>
       cmp_field F_STATUS ms is_
       ++ (if val_eqb ms is_ then cmp_hdrs mh ih else [])     (* headers of different statuses are not comparable *)
       ++ cmp_field F_HINT0 mh0 ih0 ++ cmp_field F_EOS0 me0 ie0
-      ++ firstn 12 (cmp_polls true 0 0 0 mp ip) ++ cmp_field F_CALLS mc ic
+      ++ firstn 12 (cmp_polls true 0 0 0 mp ip) ++ cmp_calls (snd (fst (split_body ip))) mc mcx ic
       ++ cmp_derived fused ms is_ mh ih mx ip mc ic
   | _, _ => cmp_field F_SHAPE model impl
   end.
 
-(* the model's body polled until well past its terminal event *)
-Definition model_polls_ext (i : sinput) (impl : val) : list val :=
+(* the model's body polled until well past its terminal event: its polls and its entity reads *)
+Definition model_ext (i : sinput) (impl : val) : list val * val :=
   match serve_model fmt_date_eval (lookup_date (i_dates i)) (i_now i) (i_ent i) (i_req i) with
-  | Panic t => []
+  | Panic t => ([], VL [])
   | Ok r =>
-      let (b, _) := body_init (i_streams i) (adapt_plan (rplan r) impl) in
+      let (b, calls0) := body_init (i_streams i) (adapt_plan (rplan r) impl) in
       let slack := (fold_left (fun a s => a + length s + 2) (i_streams i) 8)%nat in
-      fst (run_polls (i_npolls i + slack) (i_streams i) b)
+      let (polls, bf) := run_polls (i_npolls i + slack) (i_streams i) b in
+      (polls, of_calls (body_calls bf calls0))
   end.
+Definition model_polls_ext (i : sinput) (impl : val) : list val := fst (model_ext i impl).
